@@ -24,6 +24,7 @@ Clauses(c) ==
       (IF c.res # "ok" THEN {"C12_Accept"} ELSE
         (IF Decoded(c.raw) # t.s THEN {"C12_Written"} ELSE {}) \cup
         (IF AnyLive(c.raw) THEN {"C12_LiveInterpolation"} ELSE {}) \cup
+        (IF \E i \in 1..Len(c.raw) : c.raw[i] \in Keywords THEN {"C12_KeywordBare"} ELSE {}) \cup
         (IF c.res2 # "ok" \/ Decoded(c.raw2) # t.s \/ ~c.v2ok THEN {"C12_SameBinding"} ELSE {}) \cup
         (IF c.res2 = "ok" /\ c.n2 # 1 THEN {"C12_OneAttribute"} ELSE {}) \cup
         (IF c.res3 # "ok" \/ ~c.gone3 THEN {"C12_RmFinds"} ELSE {}) \cup
